@@ -1,7 +1,7 @@
 # C18 — elements search visits every existing element once in id-slot order
 # (database model coq/theories/Graph.v Search.v + hx_core `db` harness, profile `search`)
 import vlib
-from checks.db_common import run_db
+from checks.db_common import run_db, add_big, spec_level
 
 META = dict(
     engine="coq+hx_core",
@@ -37,10 +37,12 @@ COMMON = ("panic", "read-error")        # failures that are violations wherever 
 def run(ctx):
     n, steps = (150, 30) if ctx.tier == "quick" else (4000, 60)
     r = run_db(ctx, PROFILE, n, steps)
+    r = add_big(ctx, r, 30 if ctx.tier == "quick" else 600)
     # second stream: the C08 generator (insert/remove-heavy, much larger graphs with freed and reused slots); its dumps
     # list the elements through an unconditioned elements search and its selects contain searches of all algorithms
     g = run_db(ctx, "graph", n, steps, sub="db_graph", seed_off=1000003)
     failures = [f for f in r["failures"] + g["failures"] if f["cls"].startswith(CLASSES) or f["cls"] in COMMON]
+    failures += [f for f in spec_level(dict(failures=[], disagreements=r["disagreements"] + g["disagreements"])) if f["cls"] == "model-mismatch"]
     dist = dict(r["dist"])
     for k, v in g["dist"].items():
         dist["graph-profile:" + k] = v
